@@ -27,7 +27,7 @@ ASSUMPTIONS = ['the identity may be passed as a Line or as anything operator.ind
 REACH = {'logic_sim.c_prop': ('logic_sim.py', 54, 261)}
 REACH_TEXT = {'cb-m2': ('logic_sim.py', "if o_line < len(self.circuit.lines): inject_cb("), 'cb-m48': ('logic_sim.py', 'if inject_cb is not None and o_line < len(self.circuit.lines): inject_cb(')}
 
-FEATS = ['unconn_in', 'unconn_out', 'ff_no_d', 'out_read', 'wiring', 'consts', 'floating']
+FEATS = ['unconn_in', 'unconn_out', 'ff_no_d', 'out_read', 'wiring', 'consts', 'floating', 'ff_unread']
 
 
 class FalsyCallback:
